@@ -200,6 +200,18 @@ func init() {
 			{"x = [[1,2],{'k':[3]},'s',1.5,null]", []string{"x[0][1]", "x[1].k", "x[4] ?? 9", "x.len()"}},
 			{"func h1() { [1,2].kh }; u = h1()", []string{"typeId(u)"}},
 		}
+		// boundary values, each at top level, inside an array, as a dict value and as an attribute of a computed value:
+		// integers around 2^53 and at the ends of the range, floats that are whole numbers / tiny / huge / negative zero,
+		// strings with quotes, controls, non-ASCII and surrogate-range characters, empty containers, keys with special characters
+		bvals := []string{"9007199254740993", "-9007199254740993", "9223372036854775807", "-9223372036854775807 - 1", "3037000499 * 3037000499", "4611686018427387904", "1099511627776",
+			"3.0", "-0.0", "0.1 + 0.2", "1.0e21", "123456789012345678.0", "0.000001", "1.5e-7", "2.0 ** 60",
+			"''", "'a\\'b\"c'", "'line1\\nline2\\ttab'", "'中文 한국어 😀'", "'\\\\ back'", "'{x} `y`'", "[]", "{}", "[[]]", "{'': 1}", "{'a b': 1}", "{'键': [1]}", "{'q\"uote': {}}", "[null, [null]]", "[1.0, 2, '3']"}
+		for _, bv := range bvals {
+			probes = append(probes, struct {
+				prefix string
+				progs  []string
+			}{"v = " + bv + "; w = [" + bv + ", [" + bv + "]]; u = {'k': " + bv + "}; &cv = this.a; &cv.a = " + bv, []string{"v", "w[0] == v", "w[1][0]", "u.k", "cv", "toStr(v)", "repr(w)", "v == " + bv, "[v, v] == [w[0], u.k]", "typeId(v)"}})
+		}
 		for pi, pr := range probes {
 			vm1 := newSeededVM(7)
 			vm1.Config.OpCountLimit = 200000
